@@ -117,7 +117,9 @@ def rand_tree(r, maxdepth=3, nfiles=6, dangerous=0.0, safe_links=0.2, levels=(2,
                 tgt = r.choice([rname(r), b"./" + rname(r), rname(r) + b"/" + rname(r),
                                 # relative, no '..' COMPONENT, but components that merely begin or end with dots
                                 b"..data/" + rname(r), b".../" + rname(r), rname(r) + b"/..x/" + rname(r), b"..a", rname(r) + b"/...",
-                                b"a../" + rname(r), rname(r) + b"/"])
+                                b"a../" + rname(r), rname(r) + b"/",
+                                # last component of two characters beginning with a dot, a lone dot-name: NOT "..", so harmless
+                                b".x", b".a", rname(r) + b"/.c", b"./.z", b"..."])
                 entries.append(Entry("link", prefix + nm, target=tgt, level=lvl))
             elif k < 0.3 + safe_links + dangerous:
                 tgt = r.choice([b"/tmp/" + rname(r), b"../" + rname(r), b"../../" + rname(r), rname(r) + b"/../../" + rname(r), b"/"])
